@@ -17,6 +17,15 @@ CHECKS = {
        "not a proof over all programs.",
   note="Trusts drivers/rtdrv.c's emit log (written with write(2) before each call) and lib/obs.py's reading of the "
        "trace specification; sanitizers only see what the workload reaches."),
+ "C02": dict(
+  cat="exploration", ref="DESIGN.md section 3, C02",
+  technique="runtime monitoring: conformant generated programs on ASan+UBSan libovni, independent trace validator, then ovniemu -l",
+  text="Generated protocol-conformant programs (1-4 threads, all clocks from ovni_clock_now, near-capacity jumbo events "
+       "arriving at swept buffer fill levels, back-to-back automatic flushes, OVNI_TMPDIR on and off) run against the "
+       "real libovni; every stream must pass an independent validator (header, exact tiling, non-decreasing clocks, "
+       "properly paired non-nested OF[ OF], complete metadata) and the real ovniemu -l must accept the trace.",
+  note="Conformance as documented in doc/user/runtime/index.md; OB. events with arbitrary payload/jumbo data stand "
+       "for user events. Held on the programs generated, not all programs."),
 }
 
 NOT_YET = "check not implemented yet in this revision (work in progress, see DESIGN.md section 3)"
